@@ -44,6 +44,7 @@ pub fn decode_doc_case(data: &[u8]) -> Option<DocCase> {
             ignore_link_title: flags & 1 == 1,
             server_wrappers: flags & 2 == 2,
             isolate_english: flags & 4 == 4,
+            by_filename: flags & 8 == 8 && crate::frontends::extension_of(lang).is_some(),
         },
         text: text_of(&data[3..]),
         config: cfg,
